@@ -4,8 +4,8 @@ import numpy as np
 
 from mc import palette
 
-MATRIX_KINDS_H = ['real_symmetric', 'complex_hermitian', 'degenerate', 'block_invariant', 'reversal', 'identity']
-MATRIX_KINDS_G = ['real_general', 'complex_general', 'block_invariant_general']
+MATRIX_KINDS_H = ['real_symmetric', 'complex_hermitian', 'degenerate', 'block_invariant', 'reversal', 'identity', 'kernel']
+MATRIX_KINDS_G = ['real_general', 'complex_general', 'block_invariant_general', 'nilpotent_chain']
 START_KINDS = ['complex', 'real']
 PRESENTATIONS = ['fresh', 'buffer', 'view']
 
@@ -61,6 +61,28 @@ def build(rng, n, kind, start_kind, k_inv):
         A[k:, k:] = A2
         v = np.zeros(n, dtype=complex)
         v[:k] = start(k)
+        return A, v, k
+    if kind == 'kernel':
+        # start vector exactly in the kernel: A v = 0 exactly (zero-energy eigenstate), Krylov dimension 1
+        k = max(1, n // 2)
+        A = np.zeros((n, n), dtype=complex)
+        if n - k > 0:
+            U2 = unitary(rng, n - k)
+            A2 = (U2 * (np.linspace(-1.5, 2.0, n - k) if n - k > 1 else np.array([1.2]))) @ U2.conj().T
+            A[k:, k:] = (A2 + A2.conj().T) / 2
+        v = np.zeros(n, dtype=complex)
+        v[:k] = start(k)
+        return A, v, 1
+    if kind == 'nilpotent_chain':
+        # A e_i = e_{i+1} for i < k-1, A e_{k-1} = 0 exactly; generic block elsewhere; start e_0: Krylov dimension k
+        k = k_inv
+        A = np.zeros((n, n), dtype=complex)
+        for i in range(k - 1):
+            A[i + 1, i] = 1.0
+        if n - k > 0:
+            A[k:, k:] = palette.generic(rng, (n - k, n - k), 'complex')
+        v = np.zeros(n, dtype=complex if start_kind == 'complex' else float)
+        v[0] = 2.0
         return A, v, k
     if kind == 'reversal':
         A = np.identity(n)[::-1].copy()
